@@ -55,7 +55,7 @@ theorem valueOK_namespace_facts {p ns : Nat} (h : valueOK env (.namespace p ns) 
       (ns ≠ Env.noNamespace → env.namespaceStr ns ≠ []) := by
   simp only [valueOK, Bool.and_eq_true, Bool.or_eq_true, beq_iff_eq, bne_iff_ne, ne_eq,
     Bool.not_eq_true', List.isEmpty_eq_false_iff] at h
-  obtain ⟨⟨⟨⟨h1, h2⟩, h3⟩, h4⟩, _⟩ := h
+  obtain ⟨⟨⟨⟨⟨h1, h2⟩, _⟩, h3⟩, h4⟩, _⟩ := h
   refine ⟨h1, h2, fun hp => ?_, fun hn => ?_⟩
   · rcases h3 with h3 | h3
     · exact absurd h3 hp
@@ -90,6 +90,44 @@ theorem DeclsOK.keys_nodup (he : EnvFacts env) {decls : List (Nat × Nat)} (h : 
     obtain ⟨db, hdb, rfl⟩ := List.mem_map.mp hb
     exact he.prefixStr_inj (h.prefix_lt he hda) (h.prefix_lt he hdb) hab) h1
   simpa [List.map_map, Function.comp_def] using this
+
+/-- A declaration of a `nodeOK` tree is none of those `DocumentBuilder::prefix` refuses. -/
+theorem valueOK_namespace_not_reserved (he : EnvFacts env) {p ns : Nat}
+    (h : valueOK env (.namespace p ns) = true) :
+    reservedDecl (env.prefixStr p) (env.namespaceStr ns) = false := by
+  obtain ⟨_, hnx, hpfx, hnsne⟩ := valueOK_namespace_facts h
+  have hxmlns : env.namespaceStr ns ≠ xmlnsNamespaceUri := by
+    simp only [valueOK, Bool.and_eq_true, bne_iff_ne, ne_eq] at h
+    exact h.1.1.1.2
+  have hnotXmlUri : env.namespaceStr ns ≠ xmlNamespaceUri := by
+    intro heq
+    have hlt : ns < env.namespaces.length :=
+      EnvFacts.namespace_lt_of_ne (by rw [heq]; decide)
+    have h1 : env.namespaceStr ns = env.namespaceStr Env.xmlNamespace := by rw [heq, he.ns1]; rfl
+    exact hnx (he.namespaceStr_inj hlt he.xmlNamespace_lt h1)
+  have hpx : env.prefixStr p ≠ xmlnsName := by
+    by_cases hp : p = Env.emptyPrefix
+    · rw [hp, he.p0]; decide
+    · exact (hpfx hp).2.1
+  have hundecl : ¬ (env.prefixStr p ≠ [] ∧ env.namespaceStr ns = []) := by
+    rintro ⟨hp1, hu⟩
+    have hp : p ≠ Env.emptyPrefix := fun hp => hp1 (by rw [hp, he.p0])
+    exact hnsne (hpfx hp).2.2 hu
+  have e1 : (env.prefixStr p == ['x', 'm', 'l', 'n', 's']) = false := by simpa [xmlnsName] using hpx
+  have e2 : (env.namespaceStr ns == xmlNamespaceUri) = false := by simpa using hnotXmlUri
+  have e3 : (env.namespaceStr ns == xmlnsNamespaceUri) = false := by simpa using hxmlns
+  simp only [reservedDecl, e1, e2, e3, Bool.and_false, Bool.or_false, Bool.false_or]
+  by_cases hp1 : env.prefixStr p = []
+  · simp [hp1]
+  · have hu : env.namespaceStr ns ≠ [] := fun hu => hundecl ⟨hp1, hu⟩
+    have : (env.namespaceStr ns).isEmpty = false := by simpa using hu
+    simp [this]
+
+theorem DeclsOK.not_reserved (he : EnvFacts env) {decls : List (Nat × Nat)} (h : DeclsOK env decls) :
+    ∀ d ∈ decls.map (declStr env), reservedDecl d.1 d.2 = false := by
+  intro d hd
+  obtain ⟨x, hx, rfl⟩ := List.mem_map.mp hd
+  exact valueOK_namespace_not_reserved he (h.2 x hx)
 
 theorem lookupFrames_cons (decls : List (Nat × Nat)) (fs : Frames) (p : Nat) :
     lookupFrames (decls :: fs) p =
